@@ -976,11 +976,13 @@ Definition handle_method (cfg : config) (fx : fixes) (s : state) (c h : N) (m : 
                    else upd_queue (upd_chan s c h (fun ch => ch <| ch_unacked ::= fun l => l ++ [{| u_tag := dtag; u_ctag := ""%string; u_queue := q; u_qid := qid_of s q; u_msg := u |}] |>)
                                     <| srv_unacked ::= Z.succ |>) q (fun qu => qu <| q_munacked ::= Z.succ |>) in
           let s := s <| srv_ready ::= Z.pred |> in
+          (* the heap always holds a queued message (the heap is the model's rendering of Go pointers); the None branch
+             keeps the reply structure so that theorems about replies need no heap invariant *)
           let evs := match get_msg s u with
                      | Some m => out1 c h (SGetOk dtag (if fx_redelivered fx then 0 <? m_dc m else false) (m_ex m) (m_key m)
                                                   (if fx_get_count fx then Z.to_N (q_len qu - 1) mod two32 else 1))
                                  ++ content_frames s c h u
-                     | None => []
+                     | None => out1 c h (SGetOk dtag false ""%string ""%string 0)
                      end in
           ok s evs
         end
